@@ -83,6 +83,15 @@ var corpus = []Case{
 	{Note: "archive title outside", Prepop: "empty", Pushes: []Push{arch("../outdir", reg("../outdir/x"))}},
 	{Note: "manifest layer title outside", Prepop: "empty", Pushes: []Push{{Kind: "restore", Title: "../victim"}}},
 	// later additions
+	// seeded C11-r6-1: a remembered "real directory" is replaced by a link and the memory is not cleared
+	{Note: "empty directory examined through another entry's link target, then replaced by a symlink really leading outside, then used as parent (overwrite)", Prepop: "empty", Pushes: []Push{
+		arch("pkg", dir("pkg/s/"), sym("pkg/s/up", ".."), dir("pkg/a/"), sym("pkg/probe", "a/later"), sym("pkg/a", "s/up/../../outdir"), reg("pkg/a/keep"))}},
+	{Note: "same, the link leads to the parent of the working directory: overwrites victim and creates a file", Prepop: "d", Pushes: []Push{
+		arch("pkg", sym("pkg/d/s", ".."), dir("pkg/d/q"), sym("pkg/probe", "d/q/later"), sym("pkg/d/q", "s/../.."), reg("pkg/d/q/victim"), reg("pkg/d/q/new"))}},
+	{Note: "same, the directory is examined through an absolute link target and through a sibling entry", Prepop: "d", Pushes: []Push{
+		arch("pkg", sym("pkg/d/s", ".."), dir("pkg/e"), dir("pkg/e/a"), sym("pkg/p2", "$WD/pkg/e/a/x/later"), sym("pkg/e/a", "../d/s/../../outdir"), dir("pkg/e/a/nd"), reg("pkg/e/a/nd/x"))}},
+	{Note: "near miss: nothing examines the directory before it is replaced", Prepop: "d", Pushes: []Push{
+		arch("pkg", sym("pkg/d/s", ".."), dir("pkg/d/q"), sym("pkg/d/q", "s/../../outdir"), reg("pkg/d/q/keep"))}},
 	// seeded C11-3 / C11-r5-2 shapes, made deterministic
 	{Note: "regular entry two levels below a planted directory link, the directory in between exists at the outside location", Prepop: "d", Pushes: []Push{
 		arch("pkg", sym("pkg/d/s", ".."), sym("pkg/d/o", "s/../.."), reg("pkg/d/o/outdir/x"))}},
